@@ -51,3 +51,25 @@ Theorem C08_wf_append : forall scopes cur k,
 Proof. exact wf_append. Qed.
 Theorem C08_dict_wf : forall (d : dict Z) k v, dict_wf d -> dict_wf (dict_set d k v).
 Proof. exact (@dict_set_wf Z). Qed.
+
+(** Positional replay.  Code generation (any program, any nesting of blocks, named scopes, macro
+    applications, loops, conditionals, code splices) returns to the scope it started in, keeps
+    the scope tree well formed, and produces a node list whose ScopeNode / PopScopeNode moves —
+    replayed from the same starting scope using nothing but parent pointers, which is all a pass
+    uses — enter each created scope in creation order and come back to the scope that was current
+    when it was created: every generated statement is visited, in every pass, in the scope of the
+    block that textually encloses it. *)
+From A816 Require Import Model.Codegen Proofs.ReplayProofs.
+Theorem C08_replay : forall w fuel s b s' ns,
+  cg_ok (cg_r s) -> code_gen_fuel w fuel s b = Ok (s', ns) ->
+  cg_ok (cg_r s') /\ r_cur (cg_r s') = r_cur (cg_r s) /\
+  ext (r_scopes (cg_r s)) (r_scopes (cg_r s')) /\
+  forall sc, ext (r_scopes (cg_r s')) sc ->
+    replay sc ns (r_cur (cg_r s)) (r_last (cg_r s)) = Some (r_cur (cg_r s), r_last (cg_r s')).
+Proof. exact code_gen_replay. Qed.
+Theorem C08_replay_initial : forall w r, resolver_init w = Ok r -> cg_ok r.
+Proof. exact resolver_init_ok. Qed.
+Theorem C08_pass_moves : forall w r n a r' a',
+  pc_after w r n a = Ok (r', a') ->
+  replay (r_scopes r) [n] (r_cur r) (r_last r) = Some (r_cur r', r_last r') /\ ext (r_scopes r) (r_scopes r').
+Proof. exact pass_scope_moves. Qed.
